@@ -101,6 +101,7 @@ func parseExport(txt string) (*export, error) {
 }
 
 func check(c Case, o *vf.Obs) error {
+	c.F.Link()
 	names := c.F.Vars()
 	var buf bytes.Buffer
 	if err := bf.Dimacs(bfx.Build(c.F), &buf); err != nil {
@@ -195,12 +196,20 @@ func check(c Case, o *vf.Obs) error {
 	return nil
 }
 
+// sharedOpt: in a third of the cases sub-formula objects are reused at several places.
+func sharedOpt(t *rapid.T) *[]*oracle.F {
+	if gen.Chance(t, 1, 3, "shared") {
+		return &[]*oracle.F{}
+	}
+	return nil
+}
+
 func genCase(t *rapid.T) Case {
 	names := gen.NamePool(gen.Uniform(t, 1, 6, "names"))
 	if gen.Chance(t, 1, 5, "manyNames") {
 		names = gen.NamePool(8)
 	}
-	return Case{F: gen.Formula(t, gen.FormulaOpts{MaxDepth: rapid.IntRange(1, 4).Draw(t, "depth"), Names: names, MaxGroup: 8, BigGroupsPos: true, Groups: &[][]string{}}, 0, 1)}
+	return Case{F: gen.Formula(t, gen.FormulaOpts{MaxDepth: rapid.IntRange(1, 4).Draw(t, "depth"), Names: names, MaxGroup: 8, BigGroupsPos: true, Groups: &[][]string{}, Shared: sharedOpt(t)}, 0, 1)}
 }
 
 func init() {
